@@ -194,6 +194,11 @@ def _local_transfer_loops(v: FuncView, h: str, setter: str, getter: str):
                     lst = v.resolve(it.args[1]) if isinstance(it.args[1], ast.Name) else it.args[1]
                     if isinstance(lst, ast.ListComp) and len(lst.generators) == 1 and not lst.generators[0].ifs and isinstance(lst.generators[0].target, ast.Name) and norm(lst.generators[0].iter) == norm(it.args[0]) and _is_getter_of(v, lst.elt, getter, lst.generators[0].target.id):
                         out.append(n)
+                # pairs produced by a helper that was handed the source's metadata table:
+                # `for node, md in _node_metadata_items(self._adj, self._node_metadata, h.get_nodes()): h.set_node_metadata(node, md)`
+                want_tab = "_node_metadata" if "node" in getter else "_edge_metadata"
+                if isinstance(it, ast.Call) and not (isinstance(it.func, ast.Attribute) and it.func.attr == "items") and any(is_self_attr(a_, want_tab) for a_ in list(it.args) + [k.value for k in it.keywords]):
+                    out.append(n)
                 if isinstance(it, ast.Call) and isinstance(it.func, ast.Attribute) and it.func.attr == "items" and not it.args:
                     d = v.resolve(it.func.value) if isinstance(it.func.value, ast.Name) else it.func.value
                     if isinstance(d, ast.DictComp) and len(d.generators) == 1 and isinstance(d.generators[0].target, ast.Name) and isinstance(d.key, ast.Name) and d.key.id == d.generators[0].target.id and _is_getter_of(v, d.value, getter, d.key.id):
@@ -346,6 +351,13 @@ def check_extraction(ctx, res: Result, dotted, _seen=None, delegated: bool = Fal
                 # present nodes: `if set(edge).issubset(set(nodes))`
                 if ev.meth in ("add_edge", "add_edges") and _under_subset_test(ev.view, c):
                     res.ok("X-NMETA", ev.view.fi.short, norm(c), "subset-guarded", loc(ev.view.fi, c))
+                    continue
+                # the hyperedges come out of a helper that was handed the requested node list: the selection (and with it whether
+                # a hyperedge can bring new nodes) is the helper's
+                lp_ = ev.view.enclosing(c, (ast.For,))
+                pn_ = {a_.arg for a_ in ev.view.fi.params} - {"self"}
+                if ev.meth in ("add_edge", "add_edges") and lp_ is not None and isinstance(lp_.iter, ast.Call) and not is_self_attr(lp_.iter.func) and any(isinstance(x, ast.Name) and x.id in pn_ for a_ in list(lp_.iter.args) + [k.value for k in lp_.iter.keywords] for x in ast.walk(a_)):
+                    res.unknown("X-NMETA", ev.view.fi.short, norm(c), "after-transfer", "the inserted hyperedges are selected by a helper that receives the requested nodes; whether they can bring new nodes is not decided here", loc(ev.view.fi, c))
                     continue
                 res.violation("X-NMETA", ev.view.fi.short, norm(c), "after-transfer", "nodes are added to the extract after (or without) the node-metadata transfer: they keep empty metadata", loc(ev.view.fi, c))
             else:
